@@ -2,8 +2,8 @@
 # usage: tools/seedmatrix.sh <seeds root> [workers] — runs every property's check on every seed; prints which checks fire
 ROOT="$(realpath "${1:-/verif/seeded}")"; W="${2:-6}"
 export GOFLAGS=-mod=mod GOPROXY=off GOSUMDB=off GOTOOLCHAIN=local GOWORK=off
-DV=$(mktemp /tmp/dcpverif.XXXXXX); cp /verif/bin/dcpverif "$DV"; chmod +x "$DV"   # private copy: the checker may be rebuilt meanwhile
-rm -rf /tmp/dcpverif-scratch/lock.* 2>/dev/null
+DV=$(mktemp /tmp/dcpverif.XXXXXX); cp "${DCPVERIF_BIN:-/verif/bin/dcpverif}" "$DV"; chmod +x "$DV"   # private copy: the checker may be rebuilt meanwhile
+find /tmp/dcpverif-scratch -maxdepth 1 -name "lock.*" -mmin +15 -exec rm -rf {} + 2>/dev/null   # stale locks only: another matrix may be running
 trap 'rm -f "$DV"' EXIT
 one() {
   sd="$1"; ROOT="$2"; DV="$3"
